@@ -257,11 +257,22 @@ impl<T: Qcow2IoOps> Qcow2Dev<T> {
 
         log::debug!("read_at: offset {:x} len {} >>>", offset, buf.len());
 
+        // bytes of `buf` which lie inside the image
+        let mut in_image = len;
         let extra = if offset + (len as u64) > vsize {
             // Clamp to the in-image portion: only `vsize - offset` bytes are
             // backed by data, rounded down to a block boundary.
-            len = ((vsize - offset) as usize) & !bs_mask;
+            in_image = (vsize - offset) as usize;
+            len = in_image & !bs_mask;
             if info.is_back_file() {
+                // The size of a backing image needn't be a multiple of the
+                // top device's block size: read the block which holds the
+                // end of the image as a whole (it lies inside the image's
+                // last cluster), its tail is cleared after the read.
+                let up = (in_image + bs_mask) & !bs_mask;
+                if offset + up as u64 <= info.cluster_round_up(vsize) {
+                    len = up;
+                }
                 // zeros beyond the end of a backing image
                 buf[len..].fill(0);
                 buf.len() - len
@@ -272,7 +283,8 @@ impl<T: Qcow2IoOps> Qcow2Dev<T> {
             0
         };
         // only the in-image part is read below
-        let buf = &mut buf[..len];
+        let whole = buf;
+        let buf = &mut whole[..len];
 
         debug_assert!((len & bs_mask) == 0);
 
@@ -291,7 +303,7 @@ impl<T: Qcow2IoOps> Qcow2Dev<T> {
             let nr_clusters = (len >> info.cluster_bits()) + 2;
             let mut reads = Vec::with_capacity(nr_clusters);
             let mut lens = Vec::with_capacity(nr_clusters);
-            let mut remain = buf;
+            let mut remain = &mut *buf;
             let mut idx = 0;
             let mut s = 0;
             let l2_entries = self.get_l2_entries(offset, len).await?;
@@ -324,6 +336,12 @@ impl<T: Qcow2IoOps> Qcow2Dev<T> {
             }
             s
         };
+
+        if in_image < done {
+            // whatever the last cluster of a backing image holds beyond the
+            // end of the image, it reads as zeros
+            whole[in_image..done].fill(0);
+        }
 
         log::debug!(
             "read_at: offset {:x} len {} res {} <<<",
